@@ -95,13 +95,23 @@ fn cidx(ctype: &str) -> usize {
     }
 }
 
+/// serialised toy locomotive of each kind (built once)
+fn base_loco(t: &str) -> &'static Value {
+    static CONV: std::sync::OnceLock<Value> = std::sync::OnceLock::new();
+    static BEL: std::sync::OnceLock<Value> = std::sync::OnceLock::new();
+    let make = |k: &str| serde_json::to_value(build::loco(&json!({"kind": k})).expect("toy loco")).unwrap();
+    if t == "conv" {
+        CONV.get_or_init(|| make("conv"))
+    } else {
+        BEL.get_or_init(|| make("bel"))
+    }
+}
+
 fn comp_json(ctype: &str, st: &Value) -> anyhow::Result<Value> {
-    let conv = build::loco(&json!({"kind":"conv"}))?;
-    let bel = build::loco(&json!({"kind":"bel"}))?;
     let mut v = match ctype {
-        "fc" => serde_json::to_value(conv.fuel_converter().unwrap())?,
-        "gen" => serde_json::to_value(conv.generator().unwrap())?,
-        _ => serde_json::to_value(bel.reversible_energy_storage().unwrap())?,
+        "fc" => base_loco("conv")["loco_type"]["ConventionalLoco"]["fc"].clone(),
+        "gen" => base_loco("conv")["loco_type"]["ConventionalLoco"]["gen"].clone(),
+        _ => base_loco("bel")["loco_type"]["BatteryElectricLoco"]["res"].clone(),
     };
     let i = cidx(ctype);
     v["mass"] = dec(gi(st, "mass"));
@@ -203,7 +213,7 @@ fn variant(t: &str) -> &'static str {
 /// JSON of a toy locomotive whose redundant fields are those of the unit record
 fn unit_json(u: &Value) -> anyhow::Result<Value> {
     let t = gs(u, "t");
-    let mut v = serde_json::to_value(build::loco(&json!({"kind": t}))?)?;
+    let mut v = base_loco(t).clone();
     v["mass"] = dec(gi(u, "mass"));
     v["mu"] = dec(gi(u, "mu"));
     v["force_max"] = json!(gi(u, "force") as f64 / K * g());
